@@ -299,9 +299,11 @@ func writeVectors(path string, seed int64) {
 	writeJSON(path, vs)
 }
 
+var formatRunner = Runner{Mk: func(Cfg) Executor { return formatExec{} }}
+
 func famFormat(f *FamCtx) {
 	f.Report.Rule = "frozen reference vectors (insert-only histories for every bf x format x key kind, every MakeRoot's stored names and bytes, reload) replayed on the implementation, on the model and against the recorded answers of the pinned release; DefaultLayer and DefaultKeyCompare on generated keys of all built-in kinds (uint*, int*, string, []byte, struct) at bf in 2..17, 64, 256 against the Lean layer functions / CRC-64 and against the harness's own statement of the rule; defaults of NewRoot(nil) and NewInMemory; non-trivial = every vector and every generated batch"
-	rn := Runner{Mk: func(Cfg) Executor { return formatExec{} }}
+	rn := formatRunner
 	f.Gen = func() Case { return genFormatCase(f.Rand) }
 	// vectors first
 	b, err := os.ReadFile(filepath.Join(vectorsDir(), "format.json"))
